@@ -75,6 +75,23 @@ def inputs(t, rnd):
                 vals.append(cont(a))
                 a4 = ["10", "20", "30", "0.5"]; a4[pos] = h
                 vals.append(cont(a4))
+    # '#' followed by characters int(x, 16) / float() tolerate but CSS does not: signs, blanks, underscores, prefixes
+    hx = ["1", "f", "A", "-", "+", " ", "_", "x", "g", "0"]
+    for n in (3, 6):
+        for _ in range(4000 if t == "quick" else 60000):
+            body = "".join(rnd.choice(hx) for _ in range(n))
+            vals.append("#" + body)
+            if rnd.random() < 0.2:
+                vals.append(body)
+    vals += ["#-1-2-3", "#+1+2+3", "# 1 2 3", "#1_2_3_", "#0x0x0x", "#-f-f-f", "#- - - ", "#١٢٣", "#１２３", "#ⅠⅡⅢ"]
+    # keywords spelled with characters that only SOME case mappings fold to ASCII (long s, ligatures, Kelvin sign, dotless i ...)
+    folds = [("s", "\u017f"), ("fi", "\ufb01"), ("fl", "\ufb02"), ("ff", "\ufb00"), ("st", "\ufb06"), ("k", "\u212a"), ("i", "\u0131"), ("I", "\u0130"),
+             ("a", "\uff41"), ("ss", "\u00df"), ("a", "\u00e5")]
+    for name in sorted(__import__("refs")._named()):
+        for a, b in folds:
+            if a in name:
+                vals.append(name.replace(a, b, 1))
+                vals.append(name.upper().replace(a.upper(), b, 1))
     for _ in range(15000 if t == "quick" else 300000):
         s = rnd.choice(VALID_CSS)
         for _ in range(rnd.randrange(1, 4)):
